@@ -86,6 +86,48 @@ theorem At.imgU64 {img : Bytes} {off v : Nat} (h : At img off (le 8 v)) (hv : v 
     (Img.ofBytes img).u64 off = some v := by
   simp only [Img.u64, Img.ofBytes]; exact h.readLE (by simpa using hv)
 
+
+-- lists of serialised elements -------------------------------------------------------------------------
+
+theorem getElem?_split {α} (l : List α) (k : Nat) (x : α) (h : l[k]? = some x) :
+    l = l.take k ++ x :: l.drop (k + 1) := by
+  have hk : k < l.length := by
+    rcases Nat.lt_or_ge k l.length with hlt | hge
+    · exact hlt
+    · rw [List.getElem?_eq_none hge] at h; cases h
+  rw [List.getElem?_eq_getElem hk] at h
+  injection h with h
+  rw [← h]; simp
+
+/-- element `k` of a flat-mapped list sits after the first `k` elements -/
+theorem At.flatMap_take {α} (f : α → Bytes) (l : List α) (k : Nat) (x : α) (h : l[k]? = some x) :
+    At (l.flatMap f) ((l.take k).flatMap f).length (f x) := by
+  have hs := getElem?_split l k x h
+  have : l.flatMap f = (l.take k).flatMap f ++ f x ++ (l.drop (k + 1)).flatMap f := by
+    conv => lhs; rw [hs]
+    simp [List.flatMap_append, List.flatMap_cons, List.append_assoc]
+  rw [this]; exact At.here _ _ _
+
+theorem flatMap_const_length {α} (f : α → Bytes) (c : Nat) (hc : ∀ x, (f x).length = c) (l : List α) :
+    (l.flatMap f).length = c * l.length := by
+  induction l with
+  | nil => simp
+  | cons a r ih => simp [List.flatMap_cons, hc, ih, Nat.mul_succ]; omega
+
+theorem At.flatMap_const {α} (f : α → Bytes) (c : Nat) (hc : ∀ x, (f x).length = c) (l : List α) (k : Nat) (x : α)
+    (h : l[k]? = some x) : At (l.flatMap f) (c * k) (f x) := by
+  have hk : k < l.length := by
+    rcases Nat.lt_or_ge k l.length with hlt | hge
+    · exact hlt
+    · rw [List.getElem?_eq_none hge] at h; cases h
+  have := At.flatMap_take f l k x h
+  rw [flatMap_const_length f c hc, List.length_take, Nat.min_eq_left (Nat.le_of_lt hk)] at this
+  exact this
+
+/-- second field of a right-nested record -/
+theorem At.next {img : Bytes} {off : Nat} {a rest : Bytes} (n : Nat) (hn : a.length = n) (h : At img off (a ++ rest)) :
+    At img (off + n) rest := hn ▸ h.sub_tail
+
 -- accumulators ---------------------------------------------------------------------------------------
 
 /-- `b` is `a` after more appends and more published entries -/
